@@ -76,7 +76,51 @@ def _replay_qflag(a):
         shutil.rmtree(d, ignore_errors=True)
 
 
+def _replay_idxstats(a):
+    """real BAM file with the given numbers of mapped / unmapped-but-placed records per contig through the real get_contigs_with_reads"""
+    import os, shutil, tempfile, pysam
+    import singlecellmultiomics.bamProcessing.bamFunctions as BFm
+    from replay.common import pysam_mk
+    C = [0, 1, 7]
+    rows = [('chrA', 5000, C[a['m0']], C[a['u0']]), ('chrB', 200000, C[a['m1']], C[a['u1']]), ('chrC', 31, C[a['m2']], C[a['u2']])][:a['n']]
+    hdr = pysam.AlignmentHeader.from_dict({'HD': {'VN': '1.6', 'SO': 'coordinate'}, 'SQ': [{'SN': r[0], 'LN': r[1]} for r in rows] or [{'SN': 'chrA', 'LN': 5000}]})
+    d = tempfile.mkdtemp(prefix='c05idx', dir=os.environ.get('VERIF_SCRATCH') or None)
+    try:
+        p = os.path.join(d, 'in.bam')
+        from stubs.fakeread import FakeRead
+        with pysam.AlignmentFile(p, 'wb', header=hdr) as h:
+            k = 0
+            for name, L, m, u in rows:
+                for i in range(m + u):
+                    r = FakeRead(query_name='q%d' % k, reference_name=name, reference_start=1 + i, cigartuples=[(0, 4)], seq='ACGT', qual='IIII').to_pysam(hdr)
+                    if i >= m:
+                        r.cigartuples = None
+                        r.is_unmapped = True
+                    h.write(r)
+                    k += 1
+            for i in range(C[a['su']]):
+                r = pysam.AlignedSegment(hdr)
+                r.query_name, r.query_sequence, r.is_unmapped = 'u%d' % i, 'ACGT', True
+                r.query_qualities = [30] * 4
+                h.write(r)
+        pysam.index(p)
+        got = list(BFm.get_contigs_with_reads(p, a['with_length']))
+        want = [((r[0], r[1]) if a['with_length'] else r[0]) for r in rows if r[2] > 0 or r[3] > 0]
+        if C[a['su']] > 0:
+            want.append(('*', 0) if a['with_length'] else '*')
+        if got == want:
+            return None, ''
+        return 'contig_list', 'real BAM -> %r expected %r' % (got, want)
+    finally:
+        shutil.rmtree(d, ignore_errors=True)
+
+
 def replay(args, outdir):
+    if args['lemma'] == 'L0_contigs_with_reads':
+        clause, desc = _replay_idxstats(args['cex'])
+        if clause is None:
+            return dict(reproduced=False)
+        return dict(reproduced=True, signature='L0_contigs_with_reads:%s' % clause, what='get_contigs_with_reads: %s for %r' % (desc, args['cex']))
     if args['lemma'] == 'L7_qflag_every_record':
         clause, desc = _replay_qflag(args['cex'])
         if clause is None:
